@@ -69,6 +69,13 @@ def infere_type(expr):
 
         return get_index_form(n-k.index)
 
+    elif isinstance(expr, Mul):
+        # a constant multiple of a form has the degree of the form
+        coeffs  = [a for a in expr.args if isinstance(a, _coeffs_registery)]
+        vectors = [a for a in expr.args if not(a in coeffs)]
+        if len(vectors) == 1:
+            return infere_type(vectors[0])
+
     elif isinstance(expr, Add):
         indices = set([infere_type(i) for i in expr.args])
         indices = list(indices)
